@@ -99,10 +99,21 @@ package ice
 //@   props C18 C11
 //@   ghostvar cancelledPrevious bool = false
 //@   site call gatherCandidateCancel#1 ghost cancelledPrevious := true
-//@   site call gatherCandidates#1 assert only-from-state-new-with-a-handler: old(a.gatheringState) == GatheringStateNew
-//@   site call gatherCandidates#1 assert C18 C11 previous-cycle-cancelled-first: cancelledPrevious
-//@   site call gatherCandidates#1 assert new-cycle-has-its-own-context-and-done-channel: arg1 == ctx && arg2 == done && a.gatherCandidateDone == done
+//@   site call GatherCandidates$1$1#1 assert only-from-state-new-with-a-handler: old(a.gatheringState) == GatheringStateNew
+//@   site call GatherCandidates$1$1#1 assert C18 C11 previous-cycle-cancelled-first: cancelledPrevious
+//@   site call GatherCandidates$1$1#1 assert new-cycle-has-its-own-done-channel-and-remembers-the-superseded-one: a.gatherCandidateDone == done && prevDone == old(a.gatherCandidateDone)
 //@   ensures refused-once-the-state-left-new: old(a.gatheringState) != GatheringStateNew ==> gatherErr == ErrMultipleGatherAttempted && a.gatheringState == old(a.gatheringState) && a.gatherCandidateDone == old(a.gatherCandidateDone)
+
+// The goroutine of one cycle: it gathers under the cycle's context, and the channel Close waits for is closed
+// only after this cycle has finished AND the cycle it superseded has (its sockets are released by then).
+//@ func (*Agent).GatherCandidates$1$1
+//@   props C18 C09
+//@   ghostvar ran bool = false
+//@   ghostvar waitedPrev bool = false
+//@   site call gatherCandidates#1 assert gathers-under-the-cycle-context: arg1 == ctx
+//@   site call gatherCandidates#1 ghost ran := true
+//@   site call recv#1 ghost waitedPrev := true
+//@   site call close#1 assert C09 done-only-after-this-cycle-and-the-superseded-one: ran && (prevDone == nil || waitedPrev) && arg0 == done
 
 //@ func (*Agent).gatherCandidates
 //@   props C18
